@@ -312,6 +312,10 @@ def rule_r3(ctx, repo):
             rets, _, k, fn = call(repo, it, me, "to_indexer", cutoff=cutoff, **extra)
             judge(ctx, "R3", "ForecastingHorizon.to_indexer[%s,%s]" % (tag, ftag), rets, want, wf_vec, ctx.loc(mod, fn),
                   "to_indexer(cutoff) of a %s horizon (zero-based: steps - 1)" % tag)
+        # documented option of the same mechanism: zero-based from the first value, alike for both kinds of horizon
+        rets, _, k, fn = call(repo, it, me, "to_indexer", cutoff=cutoff, from_cutoff=K(False))
+        judge(ctx, "R3", "ForecastingHorizon.to_indexer[%s,from_cutoff=False]" % tag, rets, STEPS.shift(-Lin.sym("fh[0]")), wf_vec,
+              ctx.loc(mod, fn), "to_indexer(cutoff, from_cutoff=False) of a %s horizon (zero-based from the first step)" % tag)
 
 
 # ------------------------------------------------------------------------------ R4
@@ -812,6 +816,6 @@ def run(ctx):
     run_rules(ctx)
     ctx.floor("R1", 11)
     ctx.floor("R2", 19)
-    ctx.floor("R3", 6)
+    ctx.floor("R3", 9)
     ctx.floor("R4", 46)
     ctx.floor("R5", 21)
